@@ -392,6 +392,17 @@ pub fn explore(ctx: &mut Ctx, label: &str) {
                 }
                 let f = Facts { anns: groups.interleaved(), ..base.clone() };
                 via_jax(ctx, &f, &JaxOpts::default(), false, "interleaved rows");
+                // repeated rows: every row twice (adjacent), and the whole file twice (distant repeats)
+                let mut twice: Vec<AnnFact> = vec![];
+                for a in &f.anns {
+                    twice.push(a.clone());
+                    twice.push(a.clone());
+                }
+                via_jax(ctx, &Facts { anns: twice, ..base.clone() }, &JaxOpts::default(), false, "every row repeated immediately");
+                let mut again = f.anns.clone();
+                again.extend(f.anns.iter().cloned());
+                via_jax(ctx, &Facts { anns: again.clone(), ..base.clone() }, &JaxOpts::default(), false, "all rows repeated after the last row");
+                via_jax(ctx, &Facts { anns: again, ..base.clone() }, &JaxOpts::default(), true, "all rows repeated after the last row (transitive loader)");
                 // disease rows reversed
                 let fc = Facts { anns: groups.sequential(&(0..k).collect::<Vec<_>>()), ..base.clone() };
                 let nd = fc.anns.iter().filter(|a| a.kind != crate::model::Kind::Gene && a.term.is_some()).count();
